@@ -170,6 +170,25 @@ Proof.
   - split; [constructor; simpl; rewrite ?sim_ntsc0; auto|]. now rewrite fresh_tsc_eq.
 Qed.
 
+(** the probe with a resize landing during its body: the entry made is keyed by — and
+    its provenance is — the terminal the body saw; the terminal is [t] afterwards *)
+Lemma sim_probe_resize e s h t :
+  Sim e s h -> tsc_ok h = true -> pos_size t = true ->
+  Sim e (fst (get_tsc_resize s t)) (fst (h_probe_resize h t))
+  /\ snd (get_tsc_resize s t) = snd (h_probe_resize h t).
+Proof.
+  intros S F P. destruct S. unfold get_tsc_resize, h_probe_resize, tsc_ok in *.
+  rewrite sim_tsc0, sim_tm0.
+  destruct (h_tsc h) as [t0|] eqn:HT; simpl.
+  - rewrite (Z.eqb_sym (cols (h_tm h))), (Z.eqb_sym (rows (h_tm h))).
+    change ((cols t0 =? cols (h_tm h)) && (rows t0 =? rows (h_tm h))) with (same_cells t0 (h_tm h)).
+    destruct (same_cells t0 (h_tm h)) eqn:C; simpl.
+    + pose proof (same_px_eq _ _ C F) as ->.
+      split; [constructor; rewrite ?HT; auto|]. now rewrite fresh_tsc_eq.
+    + split; [constructor; simpl; rewrite ?sim_ntsc0; auto|]. now rewrite fresh_tsc_eq.
+  - split; [constructor; simpl; rewrite ?sim_ntsc0; auto|]. now rewrite fresh_tsc_eq.
+Qed.
+
 (** ** aborted computations: closed forms *)
 
 Definition cs_hit (s : state) : bool := (cols (tm s) =? k_c (csc s)) && (rows (tm s) =? k_r (csc s)).
@@ -400,6 +419,9 @@ Proof.
     destruct (get_nv e s), (h_name e h); simpl in *. now subst.
   - destruct (sim_probe e s h S R2) as (S' & A).
     destruct (get_tsc s), (h_probe h); simpl in *. now subst.
+  - (* the probe with a resize during its body *)
+    destruct (sim_probe_resize e s h t S R2 P) as (S' & A).
+    destruct (get_tsc_resize s t), (h_probe_resize h t); simpl in *. now subst.
   - (* the armed calls *)
     destruct (sim_cell_abort e s h S R1) as (S' & A & _).
     destruct (get_cs_abort e s), (h_cell_abort e h); simpl in *. now subst.
@@ -483,6 +505,7 @@ Proof.
   - unfold h_name. destruct (h_nv h); reflexivity.
   - unfold h_name. destruct (h_nv h); reflexivity.
   - unfold h_probe. destruct (match h_tsc h with Some t1 => same_cells t1 (h_tm h) | None => false end); reflexivity.
+  - unfold h_probe_resize. destruct (match h_tsc h with Some t1 => same_cells t1 (h_tm h) | None => false end); reflexivity.
 Qed.
 
 (** ** re-enabling queries discards what was obtained while they were disabled
@@ -568,6 +591,7 @@ Proof.
     intro Q. destruct (P Q) as (A & B & C). repeat split; auto. simpl.
     intros b H. inversion H. now subst.
   - unfold h_probe. destruct (match h_tsc h with Some t0 => same_cells t0 (h_tm h) | None => false end); simpl; auto.
+  - unfold h_probe_resize. destruct (match h_tsc h with Some t0 => same_cells t0 (h_tm h) | None => false end); simpl; auto.
   - (* the armed calls: either nothing changes or the plain call is made *)
     unfold h_cell_abort. destruct (_ && _); simpl; auto.
     pose proof (prov_cell e h P). now destruct (h_cell e h).
@@ -661,6 +685,8 @@ Proof.
   - unfold get_nv. destruct (m_nv s); auto.
   - unfold get_kitty, get_nv. destruct (kitty_memo e); [destruct (m_kit s)|]; destruct (m_nv s); auto.
   - unfold get_tsc. destruct (tsc s) as [[v [c r]]|]; simpl; auto.
+    destruct (_ && _); auto.
+  - unfold get_tsc_resize. destruct (tsc s) as [[v [c r]]|]; simpl; auto.
     destruct (_ && _); auto.
   - rewrite get_cs_abort_eq. destruct (cs_waits e s); simpl; auto. apply qen_get_cs; auto.
   - rewrite get_ratio_abort_eq. destruct (match ratio s with Dynamic => _ | Fixed _ => _ end); simpl; auto.
@@ -757,6 +783,7 @@ Proof.
   - unfold get_nv. destruct (m_nv s); auto.
   - unfold get_kitty, get_nv. destruct (kitty_memo e); [destruct (m_kit s)|]; destruct (m_nv s); auto.
   - unfold get_tsc. destruct (tsc s) as [[v [c r]]|]; simpl; auto. destruct (_ && _); auto.
+  - unfold get_tsc_resize. destruct (tsc s) as [[v [c r]]|]; simpl; auto. destruct (_ && _); auto.
   - rewrite get_cs_abort_eq. destruct (cs_waits e s); simpl; auto. apply ratio_get_cs.
   - rewrite get_ratio_abort_eq. destruct (match ratio s with Dynamic => _ | Fixed _ => _ end); simpl; auto.
     unfold get_ratio. destruct (ratio s) eqn:R; simpl; auto.
@@ -893,6 +920,98 @@ Lemma size_cached_fresh e t0 ops :
   snd (step e s GetTsc) = view_ratio (fresh_tsc (tm s)).
 Proof. intros K W X. exact (getter_fresh e t0 ops GetTsc K W X eq_refl). Qed.
 
+(** ** a resize that lands while the [terminal_size_cached] body runs
+
+    [size_cached_fresh] above quantifies over histories that contain [GetTscResize t] at
+    any position.  The call during whose body the resize lands answers with the fresh
+    value for the terminal it was made at: *)
+Lemma size_cached_fresh_resize_in_body e t0 ops t :
+  kitty_memo e = false ->
+  wf_sizes t0 (ops ++ [GetTscResize t]) = true -> px_ok e t0 (ops ++ [GetTscResize t]) ->
+  let s := run e t0 ops in
+  snd (step e s (GetTscResize t)) = view_ratio (fresh_tsc (tm s)).
+Proof. intros K W X. exact (getter_fresh e t0 ops (GetTscResize t) K W X eq_refl). Qed.
+
+(** either the entry served the call (nothing changed at all, the terminal was not
+    resized) or the body ran, the terminal is [t] now, and the entry holds the value
+    under the size the wrapper read BEFORE the body *)
+Lemma resize_in_body_cases s t :
+  let s1 := fst (get_tsc_resize s t) in
+  s1 = s
+  \/ (n_tsc s1 = S (n_tsc s) /\ tm s1 = t
+      /\ tsc s1 = Some (fresh_tsc (tm s), (cols (tm s), rows (tm s)))).
+Proof.
+  unfold get_tsc_resize. destruct (tsc s) as [[v [c r]]|]; simpl; auto.
+  destruct (_ && _); simpl; auto.
+Qed.
+
+(** ... and the call AFTER it returns the fresh value for the terminal as it is then:
+    when the body ran, for the NEW size [t] — the value computed for the old size during
+    whose computation the resize landed is not served for [t] *)
+Lemma call_after_resize_in_body_fresh e t0 ops t :
+  kitty_memo e = false ->
+  wf_sizes t0 (ops ++ [GetTscResize t; GetTsc]) = true ->
+  px_ok e t0 (ops ++ [GetTscResize t; GetTsc]) ->
+  let s := run e t0 ops in
+  let s1 := fst (step e s (GetTscResize t)) in
+  snd (step e s1 GetTsc) = view_ratio (fresh_tsc (tm s1))
+  /\ (n_tsc s1 = S (n_tsc s) ->
+      tm s1 = t /\ snd (step e s1 GetTsc) = view_ratio (fresh_tsc t)).
+Proof.
+  intros K W X s s1.
+  assert (E : ops ++ [GetTscResize t; GetTsc] = (ops ++ [GetTscResize t]) ++ [GetTsc])
+    by now rewrite <- app_assoc.
+  rewrite E in W, X.
+  pose proof (size_cached_fresh e t0 (ops ++ [GetTscResize t]) K W X) as F.
+  cbv zeta in F. unfold run in F. rewrite run_from_app in F.
+  change (run_from e (run_from e (init t0) ops) [GetTscResize t]) with s1 in F.
+  split; [exact F|]. intro N.
+  assert (T : tm s1 = t).
+  { pose proof (resize_in_body_cases s t) as C. unfold s1 in *. simpl in *.
+    destruct (get_tsc_resize s t) as [s' v]; simpl in *.
+    destruct C as [C|(_ & C & _)]; auto. subst s'. lia. }
+  split; auto. now rewrite <- T.
+Qed.
+
+(** the variant of the wrapper that reads the key AFTER the body
+    ([cache = (func(...), get_terminal_size())]) refutes the statement: the value computed
+    for 80x24 is stored under 100x30 and served for it *)
+Definition get_tsc_resize_late_key (s : state) (t : tsize) : state * (Z * Z) :=
+  let v := (xpx (tm s), ypx (tm s)) in
+  let fill := (set_tm (set_tsc s (Some (v, (cols t, rows t))) (S (n_tsc s))) t, v) in
+  match tsc s with
+  | Some (v0, (c, r)) => if (cols (tm s) =? c) && (rows (tm s) =? r) then (s, v0) else fill
+  | None => fill
+  end.
+
+Definition rz_t1 : tsize := {| cols := 100; rows := 30; xpx := 900; ypx := 750 |}.
+Definition rz_t0 : tsize := {| cols := 80; rows := 24; xpx := 800; ypx := 480 |}.
+
+Example late_key_serves_stale_value :
+  let s1 := fst (get_tsc_resize_late_key (init rz_t0) rz_t1) in
+  tm s1 = rz_t1 /\ snd (get_tsc s1) = (800, 480) /\ fresh_tsc (tm s1) = (900, 750)
+  /\ snd (get_tsc (fst (get_tsc_resize (init rz_t0) rz_t1))) = (900, 750).
+Proof. repeat split; vm_compute; reflexivity. Qed.
+
+(** non-vacuity: a history with resizes landing during the body — compute; hit (no
+    resize happens); resize between calls; a resize lands during the recomputation (the
+    call itself sees the size it started at); the next call recomputes for the new size;
+    the same going back to the first size *)
+Definition rz_ops : list op :=
+  [GetTsc; GetTscResize rz_t1; GetTsc; Resize rz_t1; GetTscResize rz_t0; GetTsc; GetTsc;
+   GetTscResize rz_t1; GetTsc; GetCellSize].
+
+Example resize_in_body_history_satisfiable :
+  kitty_memo nv_env = false /\ wf_sizes rz_t0 rz_ops = true /\ px_ok nv_env rz_t0 rz_ops
+  /\ trace nv_env (init rz_t0) rz_ops
+     = [([800; 480], [0; 0; 0; 1]); ([800; 480], [0; 0; 0; 1]); ([800; 480], [0; 0; 0; 1]);
+        ([], [0; 0; 0; 1]); ([900; 750], [0; 0; 0; 2]); ([800; 480], [0; 0; 0; 3]);
+        ([800; 480], [0; 0; 0; 3]); ([800; 480], [0; 0; 0; 3]); ([800; 480], [0; 0; 0; 3]);
+        ([1; 10; 20], [1; 0; 0; 3])]
+  /\ tm (run nv_env rz_t0 (firstn 5 rz_ops)) = rz_t0
+  /\ tsc (run nv_env rz_t0 (firstn 5 rz_ops)) = Some ((900, 750), (100, 30)).
+Proof. repeat split; vm_compute; reflexivity. Qed.
+
 (** ** aborted computations
 
     An operation whose caller sees the exception leaves the WHOLE state as it was: no
@@ -933,6 +1052,7 @@ Proof.
   - destruct (get_nv e s); discriminate.
   - destruct (get_kitty e s) as [s' []]; discriminate.
   - destruct (get_tsc s); discriminate.
+  - destruct (get_tsc_resize s t); discriminate.
   - rewrite get_cs_abort_eq. destruct (cs_waits e s); simpl; auto.
     intro H. now apply view_cs_not_raised in H.
   - rewrite get_ratio_abort_eq. destruct (match ratio s with Dynamic => _ | Fixed _ => _ end); simpl; auto.
@@ -980,6 +1100,7 @@ Proof.
   - destruct (h_name e h); discriminate.
   - destruct (h_name e h) as [h' v]; simpl. unfold view_b. destruct (is_kitty v); discriminate.
   - destruct (h_probe h); discriminate.
+  - destruct (h_probe_resize h t); discriminate.
   - unfold h_cell_abort. destruct (_ && _); simpl; auto.
     destruct (h_cell e h); simpl. intro H. now apply view_cs_not_raised in H.
   - unfold h_get_ratio_abort. destruct (h_ratio h); simpl; [discriminate|].
